@@ -131,22 +131,32 @@ impl<'a> Tiler<'a> {
                 let mut w = Writer::new(Vec::new());
                 w.write_event(ev.borrow()).map_err(|e| format!("writer failed: {}", e))?;
                 let written = w.into_inner();
+                // (offset convention, BOM inside the first span?) alternatives
+                let mut alts: Vec<(usize, bool)> = vec![];
                 for o in offs {
+                    if self.off.is_none() && o == 0 && data.starts_with(&refxml::UTF8_BOM) && before == 0 {
+                        // raw convention: either the BOM is inside the first span, or it was not
+                        // stripped at all (it is then part of the first text event)
+                        alts.push((o, true));
+                        if matches!(ev, Event::Text(t) if t.starts_with(&refxml::UTF8_BOM)) {
+                            alts.push((o, false));
+                        }
+                    } else {
+                        alts.push((o, false));
+                    }
+                }
+                for (o, skip_bom) in alts {
                     let mut span = match span_of(o) {
                         Some(s) => s,
                         None => continue,
                     };
                     let mut skipped = false;
-                    if self.off.is_none() && o == 0 && data.starts_with(&refxml::UTF8_BOM) && before == 0 {
-                        // raw convention: either the BOM is inside the first span, or it was not
-                        // stripped at all (it is then part of the first text event)
-                        if !matches!(ev, Event::Text(t) if t.starts_with(&refxml::UTF8_BOM)) {
-                            if span.len() < 3 {
-                                continue;
-                            }
-                            span = &span[3..];
-                            skipped = true;
+                    if skip_bom {
+                        if span.len() < 3 {
+                            continue;
                         }
+                        span = &span[3..];
+                        skipped = true;
                     }
                     let ok = match ev {
                         Event::DocType(c) => {
@@ -181,9 +191,16 @@ impl<'a> Tiler<'a> {
             Err(Error::IllFormed(IllFormedError::MissingDoctypeName)) => {
                 self.plain = false;
                 for o in offs {
-                    if let Some(span) = span_of(o) {
+                    if let Some(mut span) = span_of(o) {
+                        let mut skipped = false;
+                        // raw convention: the BOM is inside the first span (same rule as for events)
+                        if self.off.is_none() && o == 0 && data.starts_with(&refxml::UTF8_BOM) && before == 0 && span.len() >= 3 {
+                            span = &span[3..];
+                            skipped = true;
+                        }
                         if doctype_span_ok(span, b"") {
                             self.off = Some(o);
+                            self.raw_bom_skipped |= skipped;
                             return Ok(false);
                         }
                     }
